@@ -1,7 +1,7 @@
 (* Extraction entry point for C14 (trust-schema validator): model AND specification.
    Worlds, schemas and histories arrive as finite tables; a lookup that misses a table answers
    Err (EOther 97) (code 197) so that a harness gap is visible instead of silently "false". *)
-From NDN Require Import Base.Prelude Base.Sexp Model.Validator Spec.ChainSpec.
+From NDN Require Import Base.Prelude Base.Sexp Model.Validator Model.ValidatorConc Spec.ChainSpec.
 From Coq Require Extraction ExtrOcamlBasic.
 Local Open Scope N_scope.
 
@@ -144,6 +144,45 @@ Definition as_trust (s : sexp) : option trust :=
   | _ => None
   end.
 
+(* ---- validations that overlap in time on one instance (Model/ValidatorConc.v) ---- *)
+(* the instance: the same constructor requests as in a history, (1 schema anchor sarg) | (2 anchor sarg) *)
+Definition as_ctor (w : world) (ps : list pkt) (scs : list schema) (s : sexp) : option (res cfg) :=
+  match as_op ps scs s with
+  | Some (ONewLvs sc a _) => Some (lvs_init w sc a)
+  | Some (ONewCascade a _) => Some (cascade_init w a None)
+  | _ => None
+  end.
+
+(* (0 pid) start | (1 tid) resume | (2 name) deliver | (3) expire *)
+Definition as_cev (ps : list pkt) (s : sexp) : option cev :=
+  match s with
+  | SList [SNum 0; pid] => odo pid' <- as_num pid ;; odo p <- find_pkt ps pid' ;; Some (CStart p)
+  | SList [SNum 1; tid] => option_map CResume (as_nat tid)
+  | SList [SNum 2; n] => option_map CDeliver (as_name n)
+  | SList [SNum 3] => Some CExpire
+  | _ => None
+  end.
+
+Definition s_thread (th : thread) : sexp :=
+  SList [SNum (p_id (th_pkt th));
+         match th_state th with
+         | TDone r => SList [SNum 0; s_res s_bool r]
+         | TWait ((_, cn) :: _) => SList [SNum 1; s_name cn]
+         | TWait [] => SList [SNum 9]
+         end;
+         s_list s_name (th_sent th)].
+
+(* the outstanding Interests, in the order expressed: (tid name) *)
+Definition s_queue (cs : cstate) : sexp :=
+  s_list (fun tid => SList [s_nat tid;
+                            match nth_error (cs_threads cs) tid with
+                            | Some th => match waiting_on th with Some cn => s_name cn | None => s_nil end
+                            | None => s_nil
+                            end]) (cs_queue cs).
+
+Definition s_cstate (cs : cstate) : sexp :=
+  SList [s_list s_thread (cs_threads cs); s_queue cs; s_list (s_pair s_name SBytes) (cs_cache cs)].
+
 Definition or_bad (o : option sexp) : sexp := match o with Some s => s | None => s_bad_request end.
 
 Definition run (req : sexp) : sexp :=
@@ -166,6 +205,17 @@ Definition run (req : sexp) : sexp :=
               Some (SList [s_bool (sc_fns_ok sc');
                            s_bool (anchor_matchesb sc' p);
                            s_bool (self_signedb (snd pw) p)]))
+  (* model: overlapping validations on one instance.  (4 WORLD SCHEMAS CTOR EVENTS) ->
+     (0 code) constructor failed | (1 (queue after each event ...) final-state) *)
+  | SList [SNum 4; wd; scs; ct; evs] =>
+      or_bad (odo pw <- as_world wd ;; odo scs' <- as_list_of as_schema scs ;;
+              odo rc <- as_ctor (snd pw) (fst pw) scs' ct ;;
+              odo evs' <- as_list_of (as_cev (fst pw)) evs ;;
+              Some (match rc with
+                    | Err e => s_err e
+                    | Ok c => SList [SNum 1; s_list s_queue (crun (snd pw) c (cinit []) evs');
+                                     s_cstate (cfinal (snd pw) c (cinit []) evs')]
+                    end))
   | _ => s_bad_request
   end.
 
